@@ -55,6 +55,7 @@ RunResult execute_plan(const Plan &plan, const ExecOptions &opt);
 // Fresh-twin oracle (oracle.cpp)
 void oracle_start();                       // must be called before the first yaep call of the process
 void oracle_stop();
+void oracle_serve_stdio();                // --oracle-server: serve queries on stdin/stdout
 std::string oracle_query(const std::string &miniplan_text, bool *hit);
 void oracle_stats(long *queries, long *hits);
 
